@@ -4,6 +4,7 @@ import (
 	"context"
 	"crypto/tls"
 	"encoding/json"
+	"errors"
 	"fmt"
 	"net/http"
 	"time"
@@ -16,6 +17,8 @@ const (
 
 	defaultDataTimeout = 5 * time.Second
 )
+
+var errNoInfo = errors.New("elastic info is not a JSON object")
 
 type ScanResult struct {
 	ScanType string                 `json:"scan"`
@@ -85,6 +88,10 @@ func (s *Scanner) Scan(ctx context.Context, r *scan.Request) (result scan.Result
 	var info map[string]interface{}
 	if info, err = s.elastic.GetInfo(ctx, host); err != nil {
 		return
+	}
+	// a JSON null decodes into a nil map without error
+	if info == nil {
+		return nil, errNoInfo
 	}
 	// retrieve all indexes with aliases ignoring error
 	indexes, _ := s.elastic.GetIndexes(ctx, host)
